@@ -406,6 +406,13 @@ void pre_op(SimThread* me) {
     me->state = T_RUNNABLE;
     schedule(me);
 }
+// A second scheduling point right AFTER an operation: code that follows a release (or an acquisition) without any further
+// synchronisation call — e.g. a flag re-checked after unlocking — can then be overtaken by the threads the operation enabled.
+void post_op(SimThread* me) {
+    if (!G.cfg.post_op_points) return;
+    me->state = T_RUNNABLE;
+    schedule(me);
+}
 
 void reset_run(const Config& cfg) {
     for (auto* t : G.threads) delete t;
@@ -752,6 +759,10 @@ int pthread_mutex_lock(pthread_mutex_t* m) {
         r = model_lock(me, m, false);
     }
     hb_acquire(m);
+    {
+        Ign ig;
+        post_op(me);
+    }
     return r;
 }
 int pthread_mutex_trylock(pthread_mutex_t* m) {
@@ -775,6 +786,7 @@ int pthread_mutex_unlock(pthread_mutex_t* m) {
         Ign ig;
         pre_op(me);
         model_unlock(me, m);
+        post_op(me);
     }
     return 0;
 }
@@ -799,6 +811,10 @@ int pthread_cond_wait(pthread_cond_t* c, pthread_mutex_t* m) {
         r = model_cond_wait(me, c, m, false, 0);
     }
     hb_acquire(m);
+    {
+        Ign ig;
+        post_op(me);
+    }
     return r;
 }
 static int timed_cond_wait(SimThread* me, pthread_cond_t* c, pthread_mutex_t* m, clockid_t clk, const struct timespec* abs) {
@@ -835,14 +851,18 @@ int pthread_cond_signal(pthread_cond_t* c) {
     SimThread* me = tl_me;
     if (!me) return real_pthread_cond_signal(c);
     Ign ig;
-    return model_cond_wake(me, c, false);
+    int r = model_cond_wake(me, c, false);
+    post_op(me);
+    return r;
 }
 int pthread_cond_broadcast(pthread_cond_t* c) {
     REAL(int, pthread_cond_broadcast, pthread_cond_t*);
     SimThread* me = tl_me;
     if (!me) return real_pthread_cond_broadcast(c);
     Ign ig;
-    return model_cond_wake(me, c, true);
+    int r = model_cond_wake(me, c, true);
+    post_op(me);
+    return r;
 }
 int pthread_cond_destroy(pthread_cond_t* c) {
     REAL(int, pthread_cond_destroy, pthread_cond_t*);
